@@ -166,7 +166,9 @@ func run(c *lib.Ctx) {
 		collA, collB, tried = findCollision()
 		c.Extra("shorthash_collision_search", map[string]any{"hashes_tried": tried, "nonce_a": collA, "nonce_b": collB, "ms": time.Since(t).Milliseconds()})
 	}
-	cfgs = append(cfgs, histCfg{Idx: 0, Cap: 1, PerAcc: 2, LastMax: 2, Queue: "score", NSenders: 2, Special: "evict-min"})
+	// index 0: a roomy score-ordered queue. (An evicting score queue would be a harness-written QueueCache: no queue in
+	// this repository evicts inside Push, so behaviour under eviction is not chain33's and is not judged.)
+	cfgs = append(cfgs, histCfg{Idx: 0, Seed: c.CaseRng("hist", 0).U64(), Cap: 8, PerAcc: 2, LastMax: 2, Queue: "score", NSenders: 3, NEvents: 300})
 	cfgs = append(cfgs, histCfg{Idx: 1, Cap: 4, PerAcc: 2, LastMax: 2, Queue: "simple", NSenders: 2, Special: "shash", CollA: collA, CollB: collB})
 	for i := 2; i < nSeq+2; i++ {
 		rng := c.CaseRng("hist", i)
@@ -186,8 +188,9 @@ func run(c *lib.Ctx) {
 		case 0, 1: // score queue with room for every sender's full quota: order/removal without eviction
 			hc.Queue = "score"
 			hc.Cap = (hc.NSenders + hc.NEth) * hc.PerAcc
-		case 2: // score queue that must evict
+		case 2: // another roomy score queue (see index 0: evicting queues are not part of this repository)
 			hc.Queue = "score"
+			hc.Cap = (hc.NSenders+hc.NEth)*hc.PerAcc + rng.Intn(3)
 		case 3: // roomy simple queue: the per-sender limit is the binding constraint
 			hc.Queue = "simple"
 			hc.Cap = rng.Range(9, 40)
